@@ -104,6 +104,7 @@ func (c JSONMapCodec) Read(data []byte, ptr unsafe.Pointer, wt plenccore.WireTyp
 	}
 
 	for ; count > 0; count-- {
+		verifYield("json.map")
 		l, n := plenccore.ReadVarUint(data[offset:])
 		if n < 0 {
 			return 0, fmt.Errorf("bad length in map")
@@ -182,6 +183,7 @@ func (c JSONArrayCodec) Read(data []byte, ptr unsafe.Pointer, wt plenccore.WireT
 	}
 
 	for i := range a {
+		verifYield("json.array")
 		l, n := plenccore.ReadVarUint(data[offset:])
 		if n < 0 {
 			return 0, fmt.Errorf("bad length in map")
@@ -301,6 +303,7 @@ func readJSONKV(data []byte, key *string, val *any) (n int, err error) {
 	)
 
 	for offset < len(data) {
+		verifYield("json.kv")
 		wt, index, n := plenccore.ReadTag(data[offset:])
 		offset += n
 		switch index {
